@@ -12,8 +12,11 @@ var Vocab = []string{"var", "def", "eval", "print", "bind", "true", "false", "ni
 	"=", "{", "}", "(", ")", "<", ">", "+", "-", "*", "/", ":", ";", "==", "!=", "<=", ">=", "->",
 	"x", "f1", "struct", "slice", "first", "all", "0", "1", "42", "0x1F", "017", "1.5", "1e3", `"s"`, `""`, `"a\nb"`}
 
-// Lexical failure spellings: each makes the lexer emit a failure.
-var LexFails = []string{"@", "$", "`", "\"unterminated", "12.", "42q", "0x1.", "\"foo\"1", "!", "1e", "1e+", "1.5x", "0xZ", "x\"q\"", "\\", "[", "~", "\x00", "\xff", "1.e3", "é"}
+// Lexical failure spellings: each, surrounded by blanks, makes the lexer emit a
+// failure whatever follows it (the unterminated string carries its own line
+// end: an open quote alone can be closed by a later quote on the same line and
+// the rest swallowed by a '#' comment).
+var LexFails = []string{"@", "$", "`", "\"unterminated\n", "12.", "42q", "0x1.", "\"foo\"1", "!", "1e", "1e+", "1.5x", "0xZ", "x\"q\"", "\\", "[", "~", "\x00", "\xff", "1.e3", "é"}
 
 // Damage applies one seeded fault to the rendered source of p and returns the
 // damaged bytes and the fault kind that fired.
